@@ -539,7 +539,7 @@ Proof.
 Qed.
 
 (* ---------- gridn's loop ---------- *)
-Definition old_loop (fuel : nat) (u : float) : option (list (geom * bool)) := grid_loop fuel 0%float (tx u) O.
+Definition old_loop (fuel : nat) (u : float) : option (list (geom * bool)) := grid_loop fuel 0%float (tx u) 0%Z.
 
 Lemma grid_lines_old fx fuel u : fx_gridn_bound fx = false -> grid_lines fx fuel u = old_loop fuel u.
 Proof. intro H. unfold grid_lines. rewrite H. reflexivity. Qed.
@@ -597,13 +597,13 @@ Proof.
     specialize (Hm i E). lia.
   - change (grid_loop (S (S n)) i u cnt) with
       (if PrimFloat.leb i grid_bound then
-         match grid_loop (S n) (fadd i u) u (S cnt) with
-         | Some r => Some (grid_pair i (Nat.eqb (Nat.modulo cnt grid_thick_every) 0) r)
+         match grid_loop (S n) (fadd i u) u (Z.succ cnt) with
+         | Some r => Some (grid_pair i (Z.eqb (Z.modulo cnt grid_every) 0) r)
          | None => None
          end
        else Some []).
     destruct (PrimFloat.leb i grid_bound) eqn:E; [|eexists; reflexivity].
-    specialize (Hm i E). destruct (IH (fadd i u) (S cnt)) as [r Hr]; [lia|].
+    specialize (Hm i E). destruct (IH (fadd i u) (Z.succ cnt)) as [r Hr]; [lia|].
     rewrite Hr. eexists; reflexivity.
 Qed.
 
@@ -611,7 +611,7 @@ Theorem gridn_terminates_if_measure unit (m : float -> nat) :
   (forall i, PrimFloat.leb i grid_bound = true -> (m (fadd i (tx unit)) < m i)%nat) ->
   exists fuel l, old_loop fuel unit = Some l.
 Proof.
-  intro Hm. destruct (grid_loop_terminates (tx unit) m Hm (m 0%float) 0%float O (le_n _)) as [l Hl].
+  intro Hm. destruct (grid_loop_terminates (tx unit) m Hm (m 0%float) 0%float 0%Z (le_n _)) as [l Hl].
   exists (S (m 0%float)), l. exact Hl.
 Qed.
 
